@@ -77,6 +77,11 @@ def gen_scenario(rng, small=False):
                 r["w"] = rng.choice([1, 64, 1000]) if n <= 300 else rng.choice([max(64, n // 6), 4096, 8192])
             if r["k"] == "fw" and n == 0:
                 r["k"] = "cl"
+            if r["k"] == "fw" and rng.random() < 0.4:
+                r["k"] = "fwoff"
+            if rng.random() < 0.15:
+                # stray empty lines between pipelined requests are ignored, they are not requests
+                r["lead"] = rng.choice(["\r\n", "\r\n\r\n", "\r\n\r\n\r\n\r\n"])
             x = rng.random()
             if x < 0.25:
                 r["m"] = "POST"
@@ -100,6 +105,13 @@ def gen_scenario(rng, small=False):
                 r["n"] = rng.choice([300, 1000])
                 r["w"] = 64
             reqs.append(r)
+        if rng.random() < 0.12:
+            # an uploading client: every request of the connection has a body and expects 100 Continue
+            for r in reqs:
+                if r.get("m") != "HEAD" and r.get("v") != "1.0":
+                    r["m"] = "POST"
+                    r.setdefault("body", rng.choice([1, 10, 300]))
+                    r["expect"] = True
         c = {"requests": reqs, "sndbuf": sndbuf}
         if rng.random() < 0.5:
             total = 150 * nreq
